@@ -542,3 +542,23 @@ func init() {
 		},
 	})
 }
+
+func init() {
+	register(&Prop{
+		ID:        "C08",
+		Functions: []string{"generated CalcClient methods, CalcProcessor.Process, calcProcessorX.Process, *Args/*Result codecs (harness/c08gen svc.thrift extends base.thrift)", "apache thrift v0.13.0 TStandardClient.Call/Send/Recv, TBinaryProtocol message framing, TApplicationException (interpreted)", "loopback transport (harness)"},
+		Bounds:    "one designed service (value method with two declared exceptions at ids 1 and 4 and arguments at ids 1 and 3, void method with an exception, oneway, no-argument method, method/parameter named like Go keywords, a method inherited across an include); all argument/result/exception members symbolic (strings of 1-2 bytes, list of 1), handler behaviour a free choice among {result, each declared exception, foreign error}; a sequence of 5 calls on one connection; unknown method names of 0..5 FREE bytes with a free sequence id",
+		Assumptions: []string{"client and processor meet through a synchronous loopback transport (no sockets, no concurrency)", "the programs dimension is this one designed service"},
+		Variants: []*Prop{
+			{Label: "default", Pkg: "zzgen/c08/svc", NoOverlay: true, Diff: []string{"D_C08_1"},
+				Harnesses: []Harness{
+					{Func: "H_C08_compute", Covers: []string{"result", "bad", "worse", "foreign"}},
+					{Func: "H_C08_sequence", Covers: []string{"end"}},
+					{Func: "H_C08_unknown_method", Quick: rng(0, 5), Covers: []string{"end"}},
+				},
+				Prepare: func(r *runner) error {
+					return prepareStatic(r, "c08gen", []string{"svc.thrift", "base.thrift"}, "go", "", "c08/svc")
+				}},
+		},
+	})
+}
